@@ -7,5 +7,7 @@ export CARGO_NET_OFFLINE=true
 mkdir -p logs evidence replays
 python3 lazy/gen_shadow.py >/dev/null
 (cd sim && cargo build --release --offline 2>&1 | tail -2)
+(cd sim && cargo build --profile relcheck --offline -p dsim 2>&1 | tail -2)
 (cd lazy && cargo build --release --offline -p lazysim 2>&1 | tail -2)
+(cd lazy && cargo build --profile relcheck --offline -p lazysim 2>&1 | tail -2)
 echo "setup ok"
